@@ -66,7 +66,7 @@ def parse_trace(text):
             if ' dir=' in seg:
                 kv = dict(t.split('=', 1) for t in ('live=' + seg).split(' '))
                 cur.setdefault('gcs', []).append({'live': kv['live'], 'log': int(kv['log']), 'prev': int(kv['prev']), 'man': int(kv['man']),
-                                                  'dir': kv['dir'], 'rm': []})
+                                                  'dir': kv['dir'], 'rm': [], 'order': kv.get('order', 'sl')})
         elif line.startswith('GCRM '):
             if cur.get('gcs'): cur['gcs'][-1]['rm'].append(line[5:].strip())
         elif line.startswith('LAYOUT '):
@@ -271,6 +271,8 @@ def validate(calls, ops, opts, model_exe, res, keys_known, check_every_layout=Tr
             readable = sorted(set(snaps.values()))
             # every obsolete-file collection observed during this call, replayed on the collector model (Gc.v)
             for g in call.get('gcs', []):
+                if g.get('order') == 'ls' and not g['rm']:
+                    continue      # listing before live set and nothing unlinked: recovery's missing-file check, not a collection
                 res.stats['gc_events'] = res.stats.get('gc_events', 0) + 1
                 live = ','.join('%x' % int(t) for t in g['live'].split(',')) if g['live'] != '.' else '.'
                 mr = m.ask('gc_case %s %x %x %x %s' % (live, g['log'], g['prev'], g['man'], g['dir']))
